@@ -11,7 +11,10 @@ SPEC_MODE = "oracle"
 KEEP_PREFIX = 1
 SIZES = {"quick": 8000, "thorough": 250000}
 BATCH = 4000
-RULE = ("sequential: one throttling rule per case (threshold from integers, fractions, 0, -0, subnormal, huge, +Inf and values that put "
+RULE = ("sequential: one resource with 1-3 throttling rules (30% of the cases two or three: identical, one field different, independent), 45% of "
+        "the cases reload the rule list in the middle of the traffic, one thing changed at a time (identical list, no-op, MaxQueueingTimeMs, "
+        "threshold, StatIntervalInMs incl. 0<->1000, rule added / removed / order swapped; a rule of another resource comes or goes so that the "
+        "reload is a real one) followed by callers at the same instant and callers one to two intervals apart; per rule (threshold from integers, fractions, 0, -0, subnormal, huge, +Inf and values that put "
         "b*I/T next to an integer; statIntervalMs incl. 0 and 2^32-1; maxQueueingTimeMs incl. 0, k*interval and k*interval+-1), 10-60 "
         "requests with batch in {0,1,2,3,floor(T),floor(T)+1,big}, arrival times non-decreasing with steps aimed at the decision boundaries "
         "(last+iv, last+iv+-1, last+iv-maxQ, last+iv-maxQ-1, same instant, huge idle gaps), callers arriving while an earlier one still sleeps; "
@@ -113,26 +116,161 @@ def next_clock(rng, arr, clk, last, maxq, iv):
     return max(arr, rng.choice(cands))
 
 
-def gen_seq(rng, cid, nmin=10, nmax=60):
-    T, I_ms, mq = pick_rule(rng)
+PREC = 0.00000001
+
+
+def rule_eq(a, b):
+    """python mirror of the driver's ruleEq (Rule.isEqualsTo on the throttling-relevant fields); rules are (T, I_ms, mq)"""
+    return a[1] == b[1] and abs(a[0] - b[0]) < PREC and a[2] == b[2]
+
+
+def reload_py(ctls, rules):
+    """mirror of Throttle.reload: ctls = [[rule, last], ...]"""
+    old, out = list(ctls), []
+    for r in rules:
+        for i, c in enumerate(old):
+            if rule_eq(c[0], r):
+                out.append(old.pop(i))
+                break
+        else:
+            out.append([r, 0])
+    return out
+
+
+def chain_py(ctls, now, b):
+    """mirror of Throttle.chain; returns (slept, kind) and updates the controllers"""
+    slept = 0
+    for c in ctls:
+        T, I_ms, mq = c[0]
+        c[1], (kind, w) = sim(c[1], mq * MS, now + slept, iv_of(T, b, (I_ms or 1000) * MS))
+        if kind == "block":
+            return slept, "block"
+        slept += w
+    return slept, ("wait" if slept else "pass")
+
+
+def fmt_rules(rules, other):
+    return "load " + " ".join(f"{fb(T)} {I} {mq}" for T, I, mq in rules) + (f" other={other}" if other else "")
+
+
+def vary(rng, rule, field):
+    T, I_ms, mq = rule
     I = (I_ms or 1000) * MS
-    maxq = mq * MS
-    ops = [f"load {fb(T)} {I_ms} {mq}"]
+    iv1 = iv_of(T, 1, I)
+    ivms = max(1, iv1 // MS) if isinstance(iv1, int) else 100
+    if field == "mq":
+        new = rng.choice([x for x in (0, ivms // 2, ivms, 2 * ivms, 5 * ivms, 50, 500, 4295, 60000, mq + 1, max(0, mq - 1)) if x != mq] or [mq + 1])
+        return (T, I_ms, min(new, 2 ** 32 - 1))
+    if field == "T":
+        cands = [T * 2, T / 2, T + 1, T + 0.5, pick_threshold(rng, I_ms)]
+        new = rng.choice([x for x in cands if x == x and x >= 0 and abs(x - T) > 1e-6] or [T + 1])
+        return (new, I_ms, mq)
+    new = rng.choice([x for x in ({0: 1000, 1000: 0}.get(I_ms, 0), 1000, 500, 2000, 100, min(I_ms + 1, 2 ** 32 - 1)) if x != I_ms])
+    return (T, new, mq)
+
+
+def distinct_T(used, rule):
+    """thresholds of one case are pairwise identical or clearly different: util.Float64Equals treats |x-y| < 1e-8 as equal, so a
+    reload to a threshold that close keeps the OLD controller and threshold (reported != enforced: C13/C14's subject, not C10's)"""
+    T = rule[0]
+    return all(T == u or abs(T - u) > 1e-6 for u in used) or T == float("inf")
+
+
+def gen_seq(rng, cid, nmin=10, nmax=60):
+    """one resource; 1-3 throttling rules; optionally reloads in the middle of the traffic (one thing changed at a time)"""
+    used = set()
+
+    def fresh(make):
+        for _ in range(50):
+            r = make()
+            if distinct_T(used, r):
+                used.add(r[0])
+                return r
+        r = make()
+        return (float(len(used) + 1) * 7.0, r[1], r[2])
+
+    _vary, _pick = vary, pick_rule
+    vary_ = lambda rng_, rule, field: fresh(lambda: _vary(rng_, rule, field))
+    pick_ = lambda rng_: fresh(lambda: _pick(rng_))
+    return _gen_seq(rng, cid, nmin, nmax, vary_, pick_)
+
+
+def _gen_seq(rng, cid, nmin, nmax, vary, pick_rule):
+    rules = [pick_rule(rng)]
+    r = rng.random()
+    if r < 0.30:
+        k = rng.random()
+        rules.append(rules[0] if k < 0.5 else vary(rng, rules[0], rng.choice(["mq", "T", "I"])) if k < 0.8 else pick_rule(rng))
+        if rng.random() < 0.12:
+            rules.append(rng.choice(rules))
+    reloady = rng.random() < 0.45
+    other = 0
+    ops = [fmt_rules(rules, other)]
+    ctls = reload_py([], rules)
     arr = clk = pick_start(rng)
     ops.append(f"clock {clk}")
-    last = 0
+    burst = 0
+    kinds = []
     for _ in range(rng.randint(nmin, nmax)):
-        b = pick_batch(rng, T)
+        if reloady and burst == 0 and rng.random() < 0.10:
+            k = rng.random()
+            i = rng.randrange(len(rules))
+            real = True
+            if k < 0.22:
+                kind = "same"
+            elif k < 0.27:
+                kind, real = "noop", False
+            elif k < 0.55:
+                kind = "mq"
+                rules = rules[:i] + [vary(rng, rules[i], "mq")] + rules[i + 1:]
+            elif k < 0.70:
+                kind = "T"
+                rules = rules[:i] + [vary(rng, rules[i], "T")] + rules[i + 1:]
+            elif k < 0.80:
+                kind = "I"
+                rules = rules[:i] + [vary(rng, rules[i], "I")] + rules[i + 1:]
+            elif k < 0.88 and len(rules) < 3:
+                kind = "add"
+                rules = rules + [rng.choice([rules[i], vary(rng, rules[i], "mq"), pick_rule(rng)])]
+            elif k < 0.95 and len(rules) > 1:
+                kind = "remove"
+                rules = rules[:i] + rules[i + 1:]
+            elif len(rules) > 1:
+                kind = "swap"
+                rules = rules[::-1]
+            else:
+                kind = "same"
+            if real:
+                other = 1 - other if other in (0, 1) else 0      # another resource's rule comes or goes: the reload is a real one
+            ops.append(fmt_rules(rules, other))
+            ctls = reload_py(ctls, rules)
+            kinds.append(kind)
+            burst = rng.choice([2, 3, 4])
+        T, I_ms, mq = rules[rng.randrange(len(rules))]
+        I = (I_ms or 1000) * MS
+        maxq = mq * MS
+        b = pick_batch(rng, T) if burst == 0 else 1
         iv = iv_of(T, b, I)
-        if rng.random() < 0.6:
+        last = next((c[1] for c in ctls if c[0] == (T, I_ms, mq)), 0)
+        if burst > 0:
+            # right after a reload: callers at the same instant, then two intervals apart
+            burst -= 1
+            if burst % 2 == 0 and isinstance(iv, int):
+                arr = clk = max(arr, clk) + rng.choice([2 * iv, iv, iv + iv // 2])
+                ops.append(f"clock {clk}")
+            elif rng.random() < 0.5:
+                clk = arr
+                ops.append(f"clock {clk}")
+        elif rng.random() < 0.6:
             arr = clk = next_clock(rng, arr, clk, last, maxq, iv)
             ops.append(f"clock {clk}")
         else:
             arr = clk
         ops.append(f"req {b}")
-        last, (kind, w) = sim(last, maxq, clk, iv)
-        clk += w
-    return Case(cid, ops, tags=("seq", f"T={T!r}", f"I={I_ms}", f"mq={mq}"))
+        slept, _ = chain_py(ctls, clk, b)
+        clk += slept
+    T, I_ms, mq = rules[0] if rules else (0.0, 0, 0)
+    return Case(cid, ops, tags=("seq", f"T={T!r}", f"I={I_ms}", f"mq={mq}", f"rules={len(ctls)}", "reloads=" + ",".join(kinds)))
 
 
 def sched_rule(rng):
@@ -276,17 +414,28 @@ def densify(ops, rng):
 def nontrivial(case, impl):
     kinds = []
     sched = None
+    loads = 0
     for l in impl:
         op, _, r = l.partition(" => ")
         if op.startswith("req "):
-            kinds.append(r.split()[0][0] if r else "?")
+            t = r.split()
+            kinds.append("?" if not t else "b" if t[-1] == "block" else "w" if any(x.startswith("S") for x in t) else "p")
+        elif op.startswith("load "):
+            loads += 1
+            kinds.append("R")
         elif op.startswith("sched"):
             sched = op
             kinds.append("S" + "".join(x.split(":")[1][0] for x in r.strip("[]").split(",") if ":" in x))
     if sched is None:
         s = "".join(kinds)
+        if loads > 1:
+            # a reload in the middle of the traffic with queueing or rejections after it
+            after = s.split("R", 2)[-1]
+            if "R" in s[1:] and ("w" in after or "b" in after):
+                return hash((tuple(o for o in case.ops if o.startswith("load ")), s))
+            return None
         # an idle-path pass after something was queued, a wait and a block
-        if "w" in s and "b" in s and "p" in s.lstrip("p"):
+        if "w" in s and "b" in s and "p" in s.lstrip("Rp"):
             return hash((case.ops[0], s))
         return None
     nthreads = sum(1 for o in case.ops if o.startswith("thread "))
